@@ -7,10 +7,11 @@ from .loopx import LoopMixin
 from .models import ModelMixin
 from .libx import LibMixin
 from .genx import GenMixin
+from .pyrx import PyrMixin
 from .sorts import Unsupported, SpecError
 
 ENGINE_VERSION = "1"
 
 
-class Verifier(EvalMixin, CallMixin, StmtMixin, LoopMixin, ModelMixin, LibMixin, GenMixin, Engine):
+class Verifier(PyrMixin, EvalMixin, CallMixin, StmtMixin, LoopMixin, ModelMixin, LibMixin, GenMixin, Engine):
     pass
